@@ -74,7 +74,11 @@ def run(ck):
             for v in vals:
                 for ch in (False, True):
                     triples.append((arch, stmt, v, ch) + variants(stmt, v, ch))
-    for stmt in ["@db vv1", "@db 1, vv1, 2", "@dw vv1", "@dw vv1, vv1", "@ds 3, vv1", "@ds 0, vv1", "@ds 0, vv1 + 250\n@db 1", "@ds 1 - 1, vv1", "@assert vv1", "@assert vv1 - 7, \"m\"",
+    for stmt in ["@db vv1", "@db 1, vv1, 2", "@dw vv1", "@dw vv1, vv1", "@ds 3, vv1", "@ds 0, vv1",
+                 # strings of several bytes (and none) before a deferred item of the same list
+                 '@db "abc", vv1, $55', '@db "", vv1', '@db "é€", vv1, "xy", vv1, 1',
+                 # a conditional whose condition is known (and neither 0 nor 1) while a branch is not
+                 "@db 4 ? vv1 : 9", "@db 2 ? 9 : vv1", "@dw ( 6 & 4 ) ? vv1 : vv1 + 1", "@db 0 ? vv1 : 7", "@db 0 - 1 ? vv1 & 255 : 3", "@assert 4 ? vv1 : 0", "@ds 0, vv1 + 250\n@db 1", "@ds 1 - 1, vv1", "@assert vv1", "@assert vv1 - 7, \"m\"",
                  "@db vv1 + 1", "@dw vv1 * 2", "@db < vv1", "@db > vv1", "@dw vv1 + vv1", "@dw ( vv1 << 8 ) | vv1",
                  "@db vv1 ^ vv1", "@ds 2, vv1 - vv1 + 3", "@assert vv1 == vv1",
                  # the same inside an ADDR segment (nothing is emitted there, but an assertion still counts)
